@@ -151,6 +151,13 @@ type Change struct {
 	lastObservedStatus       Status
 	lastRecordedNoticeStatus Status
 
+	// aborting is set while an abort walks over the tasks. The walk changes
+	// task statuses one at a time and can pass through states in which all
+	// tasks look ready (a pending task already put on hold, a done task not
+	// yet set to undo); those must not mark the change ready nor be
+	// reported to observers as a final status.
+	aborting bool
+
 	spawnTime time.Time
 	readyTime time.Time
 }
@@ -505,6 +512,15 @@ func (c *Change) detectChangeReady(excludeTask *Task) {
 // notify observers of Change changes.
 func (c *Change) taskStatusChanged(t *Task, old, new Status) {
 	cs := c.Status()
+	if c.aborting {
+		// an intermediate state of an abort in which all tasks look ready
+		// is not a final one: endAbort takes care of the ready tracking
+		// and of reporting the status the abort ends in
+		if !cs.Ready() {
+			c.notifyStatusChange(cs)
+		}
+		return
+	}
 	// If the task changes from ready => unready or unready => ready,
 	// update the ready status for the change.
 	if old.Ready() == new.Ready() {
@@ -676,6 +692,10 @@ func (c *Change) LaneTasks(lanes ...int) []*Task {
 // Cancellation will proceed at the next ensure pass.
 func (c *Change) Abort() {
 	c.state.writing()
+	if !c.IsReady() {
+		c.aborting = true
+		defer c.endAbort()
+	}
 	tasks := make([]*Task, len(c.taskIDs))
 	for i, tid := range c.taskIDs {
 		tasks[i] = c.state.tasks[tid]
@@ -688,6 +708,10 @@ func (c *Change) Abort() {
 // on aborted).
 func (c *Change) AbortLanes(lanes []int) {
 	c.state.writing()
+	if !c.IsReady() {
+		c.aborting = true
+		defer c.endAbort()
+	}
 	c.abortLanes(lanes, make(map[int]bool), make(map[string]bool))
 }
 
@@ -695,7 +719,19 @@ func (c *Change) AbortLanes(lanes []int) {
 // a ready lane is one in which all tasks are ready.
 func (c *Change) AbortUnreadyLanes() {
 	c.state.writing()
+	if !c.IsReady() {
+		c.aborting = true
+		defer c.endAbort()
+	}
 	c.abortUnreadyLanes()
+}
+
+// endAbort re-establishes the ready tracking of a change that was not yet
+// ready after an abort has gone over all the tasks it had to touch.
+func (c *Change) endAbort() {
+	c.aborting = false
+	c.detectChangeReady(nil)
+	c.notifyStatusChange(c.Status())
 }
 
 func (c *Change) abortUnreadyLanes() {
